@@ -72,7 +72,8 @@ func (p *program) kinds() string {
 type pgen struct {
 	r     *proto.Rand
 	n     int             // unique-name counter
-	avoid map[string]bool // open findings: constructs left out of the general stream
+	avoid map[string]bool // features ("<kind>.<variant>") that hit an open recorded finding
+	dead  bool            // the fragment being generated has no allowed variant
 }
 
 func (g *pgen) id(base string) string { g.n++; return fmt.Sprintf("%s%d", base, g.n) }
@@ -80,6 +81,24 @@ func (g *pgen) top(base string) string {
 	g.n++
 	return fmt.Sprintf("Pq_%s%d", base, g.n)
 }
+
+// pickCase chooses one of the n variants of a fragment generator. A variant is the feature
+// "<kind>.<index>"; variants that hit an open recorded finding (g.avoid) are not chosen. When every
+// variant is avoided the fragment under construction is dropped (g.dead).
+func (g *pgen) pickCase(kind string, n int) int {
+	var ok []int
+	for i := 0; i < n; i++ {
+		if !g.avoid[fmt.Sprintf("%s.%d", kind, i)] {
+			ok = append(ok, i)
+		}
+	}
+	if len(ok) == 0 {
+		g.dead = true
+		return 0
+	}
+	return ok[g.r.Intn(len(ok))]
+}
+
 func (g *pgen) pick(ss ...string) string { return ss[g.r.Intn(len(ss))] }
 func (g *pgen) rng(lo, hi int) int       { return lo + g.r.Intn(hi-lo+1) }
 
@@ -169,7 +188,7 @@ func fragIntExpr(g *pgen) fragment {
 func fragStrConv(g *pgen) fragment {
 	f := fragment{kind: "strconv"}
 	for i := 0; i < g.rng(2, 4); i++ {
-		switch g.r.Intn(7) {
+		switch g.pickCase("strconv", 7) {
 		case 0, 1: // string(integer variable), every kind
 			k := g.intKind()
 			x, s := g.id("x"), g.id("s")
@@ -217,7 +236,7 @@ func fragStrOps(g *pgen) fragment {
 	a, b := g.id("a"), g.id("b")
 	f.lines = append(f.lines, fmt.Sprintf("%s, %s := %s, %s", a, b, g.pick(sampleStrings...), g.pick(sampleStrings...)), fmt.Sprintf("_, _ = %s, %s", a, b))
 	for i := 0; i < g.rng(2, 4); i++ {
-		switch g.r.Intn(7) {
+		switch g.pickCase("strops", 7) {
 		case 0:
 			f.lines = append(f.lines, fmt.Sprintf("println(%s < %s, %s == %s, %s >= %s, %s+%s != %s+%s, len(%s+%s))", a, b, a, b, a, b, a, b, b, a, a, b))
 		case 1:
@@ -255,7 +274,7 @@ func fragFloat(g *pgen) fragment {
 	}
 	f.lines = append(f.lines, fmt.Sprintf("var %s, %s %s = %s, %s", x, y, t, g.pick(lits[:9]...), g.pick(lits...)), fmt.Sprintf("_, _ = %s, %s", x, y))
 	for i := 0; i < g.rng(2, 4); i++ {
-		switch g.r.Intn(7) {
+		switch g.pickCase("float", 7) {
 		case 0:
 			f.lines = append(f.lines, fmt.Sprintf("println(%s+%s, %s-%s, %s*%s, %s/%s)", x, y, x, y, x, y, x, y))
 		case 1:
@@ -320,7 +339,7 @@ func fragSlice(g *pgen) fragment {
 		return fmt.Sprintf("print(len(%s), \":\"); for _, e := range %s { print(\" \", e) }; println()", name, name)
 	}
 	for i := 0; i < g.rng(2, 5); i++ {
-		switch g.r.Intn(9) {
+		switch g.pickCase("slice", 9) {
 		case 0:
 			f.lines = append(f.lines, fmt.Sprintf("%s = append(%s, %s, %s)", s, s, g.intLit(k), g.intLit(k)), dump(s))
 		case 1:
@@ -369,7 +388,7 @@ func fragMap(g *pgen) fragment {
 	}
 	f.lines = append(f.lines, fmt.Sprintf("%s := map[%s]int{%s: 1}", m, kt, key()), "_ = "+m)
 	for i := 0; i < g.rng(3, 6); i++ {
-		switch g.r.Intn(8) {
+		switch g.pickCase("map", 8) {
 		case 0:
 			f.lines = append(f.lines, fmt.Sprintf("%s[%s] = %d", m, key(), g.r.Intn(100)), fmt.Sprintf("println(len(%s))", m))
 		case 1:
@@ -396,38 +415,42 @@ func fragMap(g *pgen) fragment {
 }
 
 func fragStruct(g *pgen) fragment {
+	// (Scriggo has no method declarations: plain functions over the struct and its pointer)
 	f := fragment{kind: "struct"}
 	T, U := g.top("T"), g.top("U")
+	sum, bump, with := g.top("sum"), g.top("bump"), g.top("with")
 	k := g.intKind()
 	f.decls = append(f.decls,
 		fmt.Sprintf("type %s struct {\n\tA %s\n\tB string\n\tC [2]int\n}", T, k.name),
-		fmt.Sprintf("func (t %s) Sum() int { return int(t.A) + len(t.B) + t.C[0] + t.C[1] }", T),
-		fmt.Sprintf("func (t *%s) Bump(n %s) { t.A += n; t.C[1]++ }", T, k.name),
-		fmt.Sprintf("func (t %s) With(b string) %s { t.B = b; return t }", T, T),
+		fmt.Sprintf("func %s(t %s) int { return int(t.A) + len(t.B) + t.C[0] + t.C[1] }", sum, T),
+		fmt.Sprintf("func %s(t *%s, n %s) { t.A += n; t.C[1]++ }", bump, T, k.name),
+		fmt.Sprintf("func %s(t %s, b string) %s { t.B = b; return t }", with, T, T),
 		fmt.Sprintf("type %s struct {\n\t%s\n\tP *%s\n\tN int\n}", U, T, T))
 	v, w := g.id("v"), g.id("w")
 	f.lines = append(f.lines, fmt.Sprintf("%s := %s{A: %s, B: %s}", v, T, g.intLit(k), g.pick(sampleStrings[:8]...)), fmt.Sprintf("%s := %s", w, v), fmt.Sprintf("_, _ = %s, %s", v, w))
-	show := func(n string) string { return fmt.Sprintf("println(%s.A, len(%s.B), %s.C[0], %s.C[1], %s.Sum())", n, n, n, n, n) }
+	show := func(n string) string {
+		return fmt.Sprintf("println(%s.A, len(%s.B), %s.C[0], %s.C[1], %s(%s))", n, n, n, n, sum, n)
+	}
 	for i := 0; i < g.rng(2, 5); i++ {
-		switch g.r.Intn(7) {
+		switch g.pickCase("struct", 7) {
 		case 0:
-			f.lines = append(f.lines, fmt.Sprintf("%s.Bump(%s)", w, g.intLit(k)), show(v), show(w), fmt.Sprintf("println(%s == %s)", v, w))
+			f.lines = append(f.lines, fmt.Sprintf("%s(&%s, %s)", bump, w, g.intLit(k)), show(v), show(w), fmt.Sprintf("println(%s == %s)", v, w))
 		case 1:
-			f.lines = append(f.lines, fmt.Sprintf("%s = %s.With(\"zz\")", w, v), show(w), fmt.Sprintf("println(%s == %s, %s != %s)", v, w, v, w))
+			f.lines = append(f.lines, fmt.Sprintf("%s = %s(%s, \"zz\")", w, with, v), show(w), fmt.Sprintf("println(%s == %s, %s != %s)", v, w, v, w))
 		case 2:
 			p := g.id("p")
-			f.lines = append(f.lines, fmt.Sprintf("%s := &%s", p, v), fmt.Sprintf("%s.C[0] = %d", p, g.r.Intn(50)), fmt.Sprintf("%s.Bump(1)", p), show(v), fmt.Sprintf("println((*%s).Sum(), %s.Sum())", p, p))
+			f.lines = append(f.lines, fmt.Sprintf("%s := &%s", p, v), fmt.Sprintf("%s.C[0] = %d", p, g.r.Intn(50)), fmt.Sprintf("%s(%s, 1)", bump, p), show(v), fmt.Sprintf("println(%s(*%s), (*%s).A, %s.A)", sum, p, p, p))
 		case 3:
 			u := g.id("u")
-			f.lines = append(f.lines, fmt.Sprintf("%s := %s{%s: %s, P: &%s, N: %d}", u, U, T, v, w, g.r.Intn(9)), fmt.Sprintf("%s.Bump(2)", u), fmt.Sprintf("%s.P.Bump(3)", u),
-				fmt.Sprintf("println(%s.A, %s.%s.A, %s.P.A, %s.Sum(), %s.N)", u, u, T, u, u, u), show(v), show(w))
+			f.lines = append(f.lines, fmt.Sprintf("%s := %s{%s: %s, P: &%s, N: %d}", u, U, T, v, w, g.r.Intn(9)), fmt.Sprintf("%s(&%s.%s, 2)", bump, u, T), fmt.Sprintf("%s(%s.P, 3)", bump, u),
+				fmt.Sprintf("println(%s.A, %s.%s.A, %s.P.A, %s(%s.%s), %s.N, len(%s.B))", u, u, T, u, sum, u, T, u, u), show(v), show(w))
 		case 4:
 			arr := g.id("arr")
-			f.lines = append(f.lines, fmt.Sprintf("%s := []%s{%s, %s, {B: \"lit\"}}", arr, T, v, w), fmt.Sprintf("for i := range %s { %s[i].Bump(%s(i)) }", arr, arr, k.name),
-				fmt.Sprintf("for _, e := range %s { e.Bump(1); print(e.Sum(), \" \") }; println(%s[2].A)", arr, arr))
+			f.lines = append(f.lines, fmt.Sprintf("%s := []%s{%s, %s, {B: \"lit\"}}", arr, T, v, w), fmt.Sprintf("for i := range %s { %s(&%s[i], %s(i)) }", arr, bump, arr, k.name),
+				fmt.Sprintf("for _, e := range %s { %s(&e, 1); print(%s(e), \" \") }; println(%s[2].A)", arr, bump, sum, arr))
 		case 5:
-			fn := g.id("fn")
-			f.lines = append(f.lines, fmt.Sprintf("%s := %s.Sum", fn, v), fmt.Sprintf("%s.Bump(1)", v), fmt.Sprintf("println(%s(), %s.Sum())", fn, v))
+			mp := g.id("mp")
+			f.lines = append(f.lines, fmt.Sprintf("%s := map[string]%s{\"v\": %s}", mp, T, v), fmt.Sprintf("{ e := %s[\"v\"]; e.A++; %s[\"w\"] = e; println(%s[\"v\"].A, %s[\"w\"].A, %s[\"none\"].A, len(%s)) }", mp, mp, mp, mp, mp, mp))
 		default:
 			an := g.id("an")
 			f.lines = append(f.lines, fmt.Sprintf("%s := struct { X, Y int; S string }{%d, %d, \"q\"}", an, g.r.Intn(9), g.r.Intn(9)), fmt.Sprintf("%s.X, %s.Y = %s.Y, %s.X", an, an, an, an), fmt.Sprintf("println(%s.X, %s.Y, %s.S)", an, an, an))
@@ -442,7 +465,7 @@ func fragPointer(g *pgen) fragment {
 	x, p := g.id("x"), g.id("p")
 	f.lines = append(f.lines, fmt.Sprintf("var %s %s = %s", x, k.name, g.intLit(k)), fmt.Sprintf("%s := &%s", p, x), "_ = "+p)
 	for i := 0; i < g.rng(2, 4); i++ {
-		switch g.r.Intn(6) {
+		switch g.pickCase("pointer", 6) {
 		case 0:
 			f.lines = append(f.lines, fmt.Sprintf("*%s += %s", p, g.intLit(k)), fmt.Sprintf("println(%s, *%s, %s == &%s)", x, p, p, x))
 		case 1:
@@ -467,33 +490,36 @@ func fragPointer(g *pgen) fragment {
 }
 
 func fragIface(g *pgen) fragment {
+	// (Scriggo has neither method declarations nor non-empty interface types: interface{} only)
 	f := fragment{kind: "iface"}
-	I, A, B := g.top("Shape"), g.top("A"), g.top("B")
-	f.decls = append(f.decls,
-		fmt.Sprintf("type %s interface {\n\tArea() int\n\tName() string\n}", I),
-		fmt.Sprintf("type %s struct{ W, H int }", A),
-		fmt.Sprintf("func (a %s) Area() int { return a.W * a.H }", A),
-		fmt.Sprintf("func (a %s) Name() string { return \"A\" }", A),
-		fmt.Sprintf("type %s int", B),
-		fmt.Sprintf("func (b *%s) Area() int { return int(*b) * 2 }", B),
-		fmt.Sprintf("func (b *%s) Name() string { return \"B\" }", B))
-	s, b := g.id("sh"), g.id("b")
-	f.lines = append(f.lines, fmt.Sprintf("%s := %s(%d)", b, B, g.r.Intn(20)), fmt.Sprintf("%s := []%s{%s{%d, %d}, &%s, nil}", s, I, A, g.r.Intn(9), g.r.Intn(9), b), "_ = "+s)
+	A, B := g.top("A"), g.top("B")
+	f.decls = append(f.decls, fmt.Sprintf("type %s struct{ W, H int }", A), fmt.Sprintf("type %s int", B))
+	s, b := g.id("vals"), g.id("b")
+	k := g.intKind()
+	for k.name == "int" {
+		k = g.intKind()
+	}
+	pt := "int" // element 1 points to an int, or (variant iface.7) to a value of a defined type
+	if g.pickCase("iface", 8) == 7 {
+		pt = B
+	}
+	g.dead = false
+	f.lines = append(f.lines, fmt.Sprintf("%s := %s(%d)", b, pt, g.r.Intn(20)),
+		fmt.Sprintf("%s := []interface{}{%s{%d, %d}, &%s, nil, %s(%s), %s, %d, 2.5, true, %s(7)}", s, A, g.r.Intn(9), g.r.Intn(9), b, k.name, g.intLit(k), g.pick(sampleStrings[:5]...), g.r.Intn(99), B), "_ = "+s)
 	for i := 0; i < g.rng(2, 4); i++ {
-		switch g.r.Intn(6) {
+		switch g.pickCase("iface", 6) {
 		case 0:
-			f.lines = append(f.lines, fmt.Sprintf("for _, x := range %s[:2] { print(x.Name(), x.Area(), \" \") }; println()", s))
+			f.lines = append(f.lines, fmt.Sprintf("for _, x := range %s { switch v := x.(type) { case %s: print(\"A\", v.W*v.H, \" \"); case *%s: print(\"ptr\", int(*v), \" \"); case %s: print(\"B\", int(v), \" \"); case nil: print(\"nil \"); case int: print(\"int\", v, \" \"); case string: print(\"str\", len(v), \" \"); case float64: print(\"f\", v, \" \"); case bool: print(v, \" \"); default: print(\"? \") } }; println()", s, A, pt, B))
 		case 1:
-			f.lines = append(f.lines, fmt.Sprintf("for _, x := range %s { switch v := x.(type) { case %s: print(\"A\", v.W, \" \"); case *%s: print(\"B\", int(*v), \" \"); case nil: print(\"nil \"); default: print(\"? \") } }; println()", s, A, B))
+			f.lines = append(f.lines, fmt.Sprintf("for _, x := range %s { switch x.(type) { case int, %s, string: print(\"multi \"); case %s, *%s: print(\"user \"); default: print(\"rest \") } }; println()", s, k.name, A, pt))
 		case 2:
-			f.lines = append(f.lines, fmt.Sprintf("if a, ok := %s[%d].(%s); ok { println(\"is A\", a.H) } else { println(\"not A\", a.W) }", s, g.r.Intn(3), A))
+			f.lines = append(f.lines, fmt.Sprintf("if a, ok := %s[%d].(%s); ok { println(\"is A\", a.H) } else { println(\"not A\", a.W) }", s, g.r.Intn(9), A))
 		case 3:
-			f.lines = append(f.lines, fmt.Sprintf("func() { defer func() { if r := recover(); r != nil { _, isErr := r.(error); println(\"recovered assertion\", isErr) } }(); a := %s[%d].(%s); println(a.W) }()", s, g.r.Intn(3), A))
+			f.lines = append(f.lines, fmt.Sprintf("func() { defer func() { if r := recover(); r != nil { _, isErr := r.(error); println(\"recovered assertion\", isErr) } }(); a := %s[%d].(%s); println(a.W) }()", s, g.r.Intn(9), A))
 		case 4:
-			f.lines = append(f.lines, fmt.Sprintf("func() { defer func() { if r := recover(); r != nil { println(\"recovered nil call\") } }(); println(%s[2].Area()) }()", s))
+			f.lines = append(f.lines, fmt.Sprintf("println(%s[0] == %s[0], %s[2] == nil, %s[3] == %s[4], %s[5] == interface{}(%s[5]), %s[1] == interface{}(&%s), %s[8] == interface{}(%s(7)), %s[8] == interface{}(7))", s, s, s, s, s, s, s, s, b, s, B, s))
 		default:
 			e := g.id("e")
-			k := g.intKind()
 			f.lines = append(f.lines, fmt.Sprintf("var %s interface{} = %s(%s)", e, k.name, g.intLit(k)),
 				fmt.Sprintf("switch v := %s.(type) { case int: println(\"int\", v); case int8: println(\"int8\", v); case uint8: println(\"uint8\", v); case int64: println(\"int64\", v); case string: println(\"string\", v); default: println(\"other\") }", e),
 				fmt.Sprintf("{ _, ok := %s.(string); _, ok2 := %s.(%s); println(ok, ok2, %s == interface{}(%s(%s)), %s != nil) }", e, e, k.name, e, k.name, g.intLit(k), e))
@@ -505,7 +531,7 @@ func fragIface(g *pgen) fragment {
 func fragClosure(g *pgen) fragment {
 	f := fragment{kind: "closure"}
 	for i := 0; i < g.rng(1, 3); i++ {
-		switch g.r.Intn(5) {
+		switch g.pickCase("closure", 5) {
 		case 0:
 			c, mk := g.id("c"), g.id("mk")
 			f.lines = append(f.lines, fmt.Sprintf("%s := func(start int) func() int { n := start; return func() int { n += %d; return n } }", mk, g.rng(1, 5)),
@@ -533,7 +559,7 @@ func fragClosure(g *pgen) fragment {
 func fragDefer(g *pgen) fragment {
 	f := fragment{kind: "defer"}
 	for i := 0; i < g.rng(1, 2); i++ {
-		switch g.r.Intn(7) {
+		switch g.pickCase("defer", 7) {
 		case 0:
 			f.lines = append(f.lines, fmt.Sprintf("func() { for i := 0; i < %d; i++ { defer func(n int) { print(\"d\", n, \" \") }(i) }; print(\"body \") }(); println()", g.rng(1, 4)))
 		case 1:
@@ -562,7 +588,7 @@ func fragDefer(g *pgen) fragment {
 func fragControl(g *pgen) fragment {
 	f := fragment{kind: "control"}
 	for i := 0; i < g.rng(1, 3); i++ {
-		switch g.r.Intn(7) {
+		switch g.pickCase("control", 7) {
 		case 0:
 			L := g.id("Outer")
 			f.lines = append(f.lines, fmt.Sprintf("%s: for i := 0; i < 4; i++ { for j := 0; j < 4; j++ { if i*j == %d { break %s }; if j > i { break }; print(i, j, \" \") } }; println()", L, g.rng(1, 6), L))
@@ -591,7 +617,10 @@ func fragControl(g *pgen) fragment {
 func fragInitOrder(g *pgen) fragment {
 	f := fragment{kind: "initorder"}
 	a, b, c, tr, fn, d := g.top("a"), g.top("b"), g.top("c"), g.top("trace"), g.top("f"), g.top("d")
-	switch g.r.Intn(3) {
+	switch g.pickCase("initorder", 4) {
+	case 3:
+		f.decls = append(f.decls, fmt.Sprintf("var %s = %s + %d", a, b, g.r.Intn(9)), fmt.Sprintf("var %s = %s * 2", b, c), fmt.Sprintf("var %s = %d", c, g.rng(1, 9)),
+			fmt.Sprintf("var %s = \"t\"", tr), fmt.Sprintf("func %s() int { return 1 }", fn), fmt.Sprintf("var %s = len(%s) + %s", d, tr, a))
 	case 0:
 		f.decls = append(f.decls, fmt.Sprintf("var %s = %s + %d", a, b, g.r.Intn(9)), fmt.Sprintf("var %s = %s(\"b\") * 2", b, fn), fmt.Sprintf("var %s = %d", c, g.rng(1, 9)),
 			fmt.Sprintf("var %s = \"\"", tr), fmt.Sprintf("func %s(s string) int { %s += s; return %s }", fn, tr, c), fmt.Sprintf("var %s = %s(\"d\") + %s", d, fn, a))
@@ -612,7 +641,7 @@ func fragAssign(g *pgen) fragment {
 	a, b := g.id("a"), g.id("b")
 	f.lines = append(f.lines, fmt.Sprintf("var %s, %s %s = %s, %s", a, b, k.name, g.intLit(k), g.intLit(k)), fmt.Sprintf("_, _ = %s, %s", a, b))
 	for i := 0; i < g.rng(2, 4); i++ {
-		switch g.r.Intn(7) {
+		switch g.pickCase("assign", 7) {
 		case 0:
 			f.lines = append(f.lines, fmt.Sprintf("%s, %s = %s, %s", a, b, b, a), fmt.Sprintf("println(%s, %s)", a, b))
 		case 1:
@@ -641,11 +670,15 @@ func fragConst(g *pgen) fragment {
 	f.decls = append(f.decls, fmt.Sprintf("type %s uint8", E),
 		fmt.Sprintf("const (\n\t%s0 %s = iota * %d\n\t%s1\n\t%s2\n\t_\n\t%s4\n)", c1, E, g.rng(1, 40), c1, c1, c1),
 		fmt.Sprintf("const %sBig = 1 << %d\nconst %sF = 7 / 2.0\nconst %sI = 7 / 2\nconst %sS = \"héllo\"\nconst %sR = 'é'", c1, g.rng(33, 60), c1, c1, c1, c1))
-	f.lines = append(f.lines, fmt.Sprintf("println(%s0, %s1, %s2, %s4)", c1, c1, c1, c1),
+	conv := "uint8" // values of the defined type are printed through a conversion …
+	if g.pickCase("const", 2) == 1 {
+		conv = "" // … or as they are (variant const.1)
+	}
+	f.lines = append(f.lines, fmt.Sprintf("println(%s(%s0), %s(%s1), %s(%s2), %s(%s4))", conv, c1, conv, c1, conv, c1, conv, c1),
 		fmt.Sprintf("println(%sBig >> %d, %sF, %sI, len(%sS), %sR, %sS[1])", c1, g.rng(20, 32), c1, c1, c1, c1, c1))
 	k := g.intKind()
 	x := g.id("x")
-	f.lines = append(f.lines, fmt.Sprintf("var %s %s = %d", x, k.name, g.r.Intn(100)), fmt.Sprintf("println(%s + 1<<%d, %s * (%sI + 1), float64(%s) * %sF, %s(%s)+%s1)", x, g.r.Intn(k.bits-1), x, c1, x, c1, E, x, c1))
+	f.lines = append(f.lines, fmt.Sprintf("var %s %s = %d", x, k.name, g.r.Intn(100)), fmt.Sprintf("println(%s + 1<<%d, %s * (%sI + 1), float64(%s) * %sF, %s(%s(%s)+%s1))", x, g.r.Intn(k.bits-1), x, c1, x, c1, conv, E, x, c1))
 	if g.r.Bool() {
 		f.lines = append(f.lines, fmt.Sprintf("{ const local = %sI * 1000; var y int16 = local; var z float32 = local; println(y, z, local/3, local%%7) }", c1))
 	}
@@ -659,7 +692,7 @@ func fragFunc(g *pgen) fragment {
 		fmt.Sprintf("func %s(base int, xs ...int) (total int) {\n\ttotal = base\n\tfor _, x := range xs {\n\t\ttotal += x\n\t}\n\treturn\n}", sum),
 		fmt.Sprintf("func %s(a, b int) (q, r int, ok bool) {\n\tif b == 0 {\n\t\treturn 0, 0, false\n\t}\n\treturn a / b, a %% b, true\n}", div))
 	for i := 0; i < g.rng(2, 4); i++ {
-		switch g.r.Intn(6) {
+		switch g.pickCase("func", 6) {
 		case 0:
 			f.lines = append(f.lines, fmt.Sprintf("println(%s(%d))", fib, g.rng(0, 15)))
 		case 1:
@@ -685,7 +718,7 @@ func fragArray(g *pgen) fragment {
 	a, b := g.id("a"), g.id("b")
 	f.lines = append(f.lines, fmt.Sprintf("%s := [4]%s{%s, %s, 2: %s}", a, k.name, g.intLit(k), g.intLit(k), g.intLit(k)), fmt.Sprintf("%s := %s", b, a), fmt.Sprintf("_, _ = %s, %s", a, b))
 	for i := 0; i < g.rng(2, 4); i++ {
-		switch g.r.Intn(5) {
+		switch g.pickCase("array", 5) {
 		case 0:
 			f.lines = append(f.lines, fmt.Sprintf("%s[%d] = %s", b, g.r.Intn(4), g.intLit(k)), fmt.Sprintf("println(%s == %s, %s[0], %s[3], len(%s))", a, b, a, b, a))
 		case 1:
@@ -707,7 +740,7 @@ func fragArray(g *pgen) fragment {
 // fragRuntimePanic ends the program with an unrecovered panic (always the last fragment).
 func fragRuntimePanic(g *pgen) fragment {
 	f := fragment{kind: "rtpanic"}
-	switch g.r.Intn(6) {
+	switch g.pickCase("rtpanic", 6) {
 	case 0:
 		f.lines = append(f.lines, "defer println(\"deferred before exit\")", fmt.Sprintf("panic(\"fatal %d\")", g.r.Intn(9)))
 	case 1:
@@ -728,12 +761,18 @@ func fragRuntimePanic(g *pgen) fragment {
 func (g *pgen) genProgram() *program {
 	p := &program{}
 	n := g.rng(2, 6)
-	for i := 0; i < n; i++ {
+	for len(p.frags) < n {
 		fg := fragGens[g.r.Intn(len(fragGens)-1)] // all but rtpanic
-		p.frags = append(p.frags, fg.f(g))
+		g.dead = false
+		if f := fg.f(g); !g.dead {
+			p.frags = append(p.frags, f)
+		}
 	}
 	if g.r.Intn(8) == 0 {
-		p.frags = append(p.frags, fragRuntimePanic(g))
+		g.dead = false
+		if f := fragRuntimePanic(g); !g.dead {
+			p.frags = append(p.frags, f)
+		}
 	}
 	return p
 }
